@@ -18,7 +18,8 @@ from vf.props import c03
 
 ID = "C05"
 # effect expressions: (text, list of effect terms (None = intercept only))
-EFFECTS = [("1", []), ("x", ["x"]), ("f", ["f"]), ("x + f", ["x", "f"]), ("f:h", ["f:h"]), ("f + f:h", ["f", "f:h"]), ("x:f", ["x:f"]), ("f + h", ["f", "h"]), ("x + x:f", ["x", "x:f"]), ("f + x:f", ["f", "x:f"]), ("f*h", ["f", "h", "f:h"])]
+EFFECTS = [("1", []), ("x", ["x"]), ("f", ["f"]), ("x + f", ["x", "f"]), ("f:h", ["f:h"]), ("f + f:h", ["f", "f:h"]), ("x:f", ["x:f"]), ("f + h", ["f", "h"]), ("x + x:f", ["x", "x:f"]), ("f + x:f", ["f", "x:f"]), ("f*h", ["f", "h", "f:h"]),
+           ("f:h:m", ["f:h:m"]), ("f + f:h:m", ["f", "f:h:m"]), ("f:h + f:h:m", ["f:h", "f:h:m"])]
 GROUPINGS = [("g", ["g"]), ("g:j", ["g:j"]), ("g + j", ["g", "j"]), ("g/j", ["g", "g:j"]), ("C(k)", ["C(k)"])]
 
 
@@ -28,6 +29,8 @@ def l_cases(tier):
         for (gtext, gfacs) in GROUPINGS:
             if tier == "quick" and gtext in ("g/j", "g:j") and len(eterms) > 1:
                 continue
+            if "m" in etext and gtext != "g":
+                continue  # three-factor effects: single grouping factor only (frame size)
             for no_int in (False, True):
                 if no_int and etext == "1":
                     continue
